@@ -7,6 +7,9 @@ props = [json.loads(l) for l in open(os.path.join(ROOT, "properties.jsonl"))]
 E = "exploration"
 # id -> (category, technique, what the level gives, trusted base / assumptions)
 CHECKS = {
+ "C06": (E, "proptest against reference input coercion (spec 6.1.2, 6.4.1, oneOf) with typed echo resolvers",
+   "One echo field per argument type (scalars, enum, nested lists, input objects with defaults/Option/MaybeUndefined fields, oneOf) x supply mode (right/arbitrary literal, variable provided/null/omitted with or without default, nested variables, single value for list, omitted argument); 400k cases per quick run; the resolver must have run once with exactly the reference-coerced value (canonical form distinguishing undefined/null/value) or the request must fail without invoking it.",
+   "Static (typed) resolvers only. Variables are declared with the type of their position; unknown field names in literals and ill-typed default literals are validation matters (C09)."),
  "C01": (E, "proptest differential vs reference executor on a derive-built schema (data worlds, typed documents)",
    "44k (world, document, variables) cases per quick run on static schema Z (two interfaces, two unions, renamed enum item, all list/nullability wrappers); data compared exactly and errors by path+location with an executor written from spec section 6; classes for union/interface conditions, nested fragments, defaulted directive variables, repeated keys have floors.",
    "The Sch mirror of Z is read from Z's own SDL by the reference parser (SDL fidelity is C17's subject). Documents valid by construction."),
